@@ -292,9 +292,8 @@ func (d *dec) item(depth int, dup *bool) (val.V, error) {
 		if arg != 42 || d.o.NoLinks {
 			return val.V{}, RjTag
 		}
-		if !minimal(ai, arg) { // a non-minimal tag head is never a DAG-CBOR link tag
-			return val.V{}, RjTag
-		}
+		// (a non-minimal tag head is rejected above in strict mode; relaxed mode tolerates
+		// non-minimal heads of every kind, the tag head included)
 		if len(d.b) == 0 {
 			return val.V{}, RjEOF
 		}
